@@ -82,6 +82,15 @@ func trailer(e *env, fn, ctor *core.Fn) ast.Expr {
 		}
 		return objOf(info, x)
 	}
+	// createValueDump: the byte-sink interpreter of c01 decides the layout
+	// whatever the spelling (MultiWriter + binary.Write, PutUintN into a local
+	// array + Write, append-built slices, helpers); the syntactic analysis below
+	// is the fallback when the body cannot be followed that way.
+	if ctor == nil {
+		if v, done := trailerByLayout(e, fn, key); done {
+			return v
+		}
+	}
 	// sink = io.MultiWriter(..., digest, ...)
 	var sink, dig types.Object
 	var under []types.Object
@@ -131,9 +140,6 @@ func trailer(e *env, fn, ctor *core.Fn) ast.Expr {
 		return true
 	})
 	if sink == nil || dig == nil {
-		if v, done := trailerByLayout(e, fn, key); done {
-			return v
-		}
 		c.Undecidedf("R5.trailer", key("tee-digest"), fn.Decl.Pos(), "cannot see %s writing through io.MultiWriter(out, digest) with a digest from a checked constructor", name)
 		return nil
 	}
@@ -319,6 +325,33 @@ func trailerByLayout(e *env, fn *core.Fn, key func(string) string) (ast.Expr, bo
 		return nil, false
 	}
 	info := fn.Pkg.TypesInfo
+	// the version written: the only 16-bit conversion in the function and the
+	// same-package helpers it calls (where the value is named before it is written)
+	var ver ast.Expr
+	nconv := 0
+	bodies := []ast.Node{fn.Decl.Body}
+	for _, call := range core.Calls(fn.Decl.Body, info, func(_ *ast.CallExpr, o types.Object) bool {
+		f, _ := o.(*types.Func)
+		return f != nil && f.Pkg() == fn.Obj.Pkg()
+	}) {
+		if hf := c.FnOf(core.CalleeFunc(info, call)); hf != nil && hf.Decl.Body != nil && hf.Obj != fn.Obj {
+			bodies = append(bodies, hf.Decl.Body)
+		}
+	}
+	for _, b := range bodies {
+		ast.Inspect(b, func(m ast.Node) bool {
+			if call, ok := m.(*ast.CallExpr); ok && len(call.Args) == 1 {
+				if tv, isT := info.Types[call.Fun]; isT && tv.IsType() && width(info, call) == 16 {
+					ver = call
+					nconv++
+				}
+			}
+			return true
+		})
+	}
+	if nconv != 1 {
+		return nil, false // leave it to the syntactic analysis
+	}
 	toks := strings.Fields(layout)
 	has := func(t string) bool {
 		for _, x := range toks {
@@ -355,27 +388,10 @@ func trailerByLayout(e *env, fn *core.Fn, key func(string) string) (ast.Expr, bo
 		c.Okf("R5.trailer", key("layout"), pos, "the payload ends in version(2) then CRC(8): %s", layout)
 		c.Check("R5.trailer", key("no-bypass"), pos, cover == strings.Join(toks[:n-1], " "),
 			fmt.Sprintf("the checksum must cover exactly what precedes it in the payload (%s); the digest had received: %s", strings.Join(toks[:n-1], " "), cover))
-	} else if has("Crc64LE") && has("Version16LE") {
+	} else {
+		// the interpreter followed every byte of the result (no undecided reason), so a different ending is a fact
 		c.Check("R5.trailer", key("layout"), pos, false, "the payload must end in version(2) then CRC(8), nothing after it; the returned bytes are: "+layout+": RESTORE / verifyDump refuse it")
 		c.Undecidedf("R5.trailer", key("no-bypass"), pos, "not judged: the trailer layout is wrong")
-	} else {
-		c.Undecidedf("R5.trailer", key("layout"), pos, "unrecognised payload layout %s", layout)
-		c.Undecidedf("R5.trailer", key("no-bypass"), pos, "not judged")
-	}
-	// the version written: the only 16-bit conversion in the function
-	var ver ast.Expr
-	nconv := 0
-	ast.Inspect(fn.Decl.Body, func(m ast.Node) bool {
-		if call, ok := m.(*ast.CallExpr); ok && len(call.Args) == 1 {
-			if tv, isT := info.Types[call.Fun]; isT && tv.IsType() && width(info, call) == 16 {
-				ver = call
-				nconv++
-			}
-		}
-		return true
-	})
-	if nconv != 1 {
-		return nil, true
 	}
 	return ver, true
 }
